@@ -7,13 +7,15 @@ from mc.engine import hbfs
 from mc.engine.report import Violation
 from mc.engine.seams import Canon, reset_library, public_snapshot
 
+import logging
+
 import numpy as np
 
 import ECAgent.Core as Core
 from ECAgent.Collectors import Collector
 
 QUICK_POOL = [('a', 'a', 0), ('b', 'b', 0), ('c', 'c', 1), ('e', 'e', 1), ('d', 'd', -1), ('k', 'k', None),
-              ('a2', 'a', 2)]
+              ('a2', 'a', 2), ('k2', 'k', 1)]
 # thorough: three systems per priority class over four classes, plus a colliding id and a collector
 THOROUGH_POOL = [('p1', 'p1', 2), ('p2', 'p2', 2), ('p3', 'p3', 2), ('q1', 'q1', 1), ('q2', 'q2', 1),
                  ('q3', 'q3', 1), ('r1', 'r1', 0), ('r2', 'r2', 0), ('r3', 'r3', 0), ('s1', 's1', -1),
@@ -75,16 +77,25 @@ class World:
 
 
 class Harness:
-    def __init__(self, pool):
+    def __init__(self, pool, logger_level=None):
         self.pool = [tuple(p) for p in pool]
-        self.config = {'pool': [list(p) for p in self.pool]}
+        self.logger_level = logger_level
+        self.config = {'pool': [list(p) for p in self.pool], 'logger_level': logger_level}
         self.ids = sorted({p[1] for p in self.pool}) + ['zz']
         self._ops = [['add', p[0]] for p in self.pool] + [['remove', i] for i in self.ids] + [['step']]
         self.cn = Canon(drop={('SystemManager', 'timestep')})
 
     def fresh(self):
         w = World()
-        w.model = Core.Model(seed=1)
+        if self.logger_level is None:
+            w.model = Core.Model(seed=1)
+        else:       # a caller-supplied logger at another level (the library's own logger is forced to INFO)
+            lg = logging.getLogger(f'c01-{self.logger_level}')
+            lg.setLevel(self.logger_level)
+            lg.propagate = False
+            if not lg.handlers:
+                lg.addHandler(logging.NullHandler())
+            w.model = Core.Model(seed=1, logger=lg)
         w.log = []
         Rec, RecC, Falsy = make_recorder(w.log)
         w.objs = {}
@@ -200,6 +211,44 @@ def self_id(h, key):
     raise KeyError(key)
 
 
+def churn_case(case):
+    """Short-lived system objects: a colliding object is rejected and dropped, then a NEW object (which may get the
+    dropped one's address) is registered under a free id with another priority; the order is judged every round."""
+    reset_library()
+    m = Core.Model(seed=1)
+    log = []
+    Rec, _, _ = make_recorder(log)
+    base = [Rec('a', 'a', m, 0), Rec('c', 'c', m, 2), Rec('d', 'd', m, -2)]
+    for o in base:
+        m.systems.add_system(o)
+    n = 0
+    for r in range(case['rounds']):
+        tmp = Rec('tmp', 'a', m, 9 if r % 2 else -9)      # id taken: must be rejected and leave no trace
+        try:
+            m.systems.add_system(tmp)
+        except KeyError:
+            pass
+        else:
+            raise Violation('duplicate id accepted')
+        del tmp
+        prio = (1, -1, 3, -3)[r % 4]
+        new = Rec('new', f'n{r % 3}', m, prio)
+        m.systems.add_system(new)
+        del log[:]
+        m.execute()
+        exp = [k for _, k in sorted([(0, 'a'), (-2, 'c'), (2, 'd'), (-prio, 'new')])]
+        exp = [k for k in ('c', 'a', 'd') ]
+        order = sorted([('a', 0, 0), ('c', 2, 1), ('d', -2, 2), ('new', prio, 3)], key=lambda t: (-t[1], t[2]))
+        exp = [t[0] for t in order]
+        if log != exp:
+            raise Violation(f'round {r}: execution order after a rejected registration of a short-lived object and the '
+                            f'registration of a new one (priority {prio})', expected=exp, observed=list(log))
+        m.systems.remove_system(new.id)
+        del new
+        n += 3
+    return n
+
+
 def long_history(case):
     """One deep history: a transient system is registered and removed n times, then the order of a small set is judged.
     (Exhaustive exploration cannot reach counters that need a million registrations; this single path does.)"""
@@ -225,6 +274,25 @@ def long_history(case):
 
 
 def run(ctx):
+    # cheap single-history legs first (a change that introduces unbounded hidden state makes the BFS legs slow)
+    for case in ({'leg': 'churn', 'rounds': 200},):
+        ctx.traces += 1
+        try:
+            ctx.transitions += hbfs._guard(churn_case, case)
+        except Violation as v:
+            ctx.report(case, v)
+            return
+    for cycles in ((70000,) if ctx.tier == 'quick' else (70000, 2 ** 20 + 16)):
+        case = {'leg': 'long_history', 'cycles': cycles}
+        ctx.traces += 1
+        ctx.transitions += 2 * cycles
+        try:
+            ctx.outcome(hbfs._guard(long_history, case))
+        except Violation as v:
+            ctx.report(case, v)
+            return
+    ctx.leg('long_history', note='single deep histories of 70 000 (thorough: 2^20+16) register/remove cycles; churn of '
+                                 '200 short-lived colliding / new system objects')
     h = Harness(QUICK_POOL)
     r = hbfs.explore(ctx, h, 'quick_pool', max_depth=40, procs=ctx.procs)
     ctx.leg('quick_pool', **r)
@@ -239,16 +307,13 @@ def run(ctx):
         ctx.cap('odd_pool: fixpoint not reached')
     if ctx.violations:
         return
-    for cycles in ((70000,) if ctx.tier == 'quick' else (70000, 2 ** 20 + 16)):
-        case = {'leg': 'long_history', 'cycles': cycles}
-        ctx.traces += 1
-        ctx.transitions += 2 * cycles
-        try:
-            ctx.outcome(hbfs._guard(long_history, case))
-        except Violation as v:
-            ctx.report(case, v)
+    small = [('b', 'b', 0), ('a', 'a', 0), ('c', 'c', 1), ('k', 'k', None), ('k2', 'k', 0), ('a2', 'a', 1)]
+    for level in (logging.DEBUG, logging.ERROR):
+        hl = Harness(small, logger_level=level)
+        r = hbfs.explore(ctx, hl, f'logger_level_{level}', max_depth=40, procs=ctx.procs)
+        ctx.leg(f'logger_level_{level}', **r)
+        if ctx.violations:
             return
-    ctx.leg('long_history', note='single deep histories of 70 000 (thorough: 2^20+16) register/remove cycles')
     if ctx.tier == 'thorough':
         r = hbfs.explore(ctx, h, 'quick_pool_nodedup', max_depth=4, dedup=False, procs=ctx.procs)
         ctx.leg('quick_pool_nodedup', **r)
@@ -266,5 +331,8 @@ def replay(case):
     if case['leg'] == 'long_history':
         hbfs._guard(long_history, case)
         return
-    h = Harness(case['config']['pool'])
+    if case['leg'] == 'churn':
+        hbfs._guard(churn_case, case)
+        return
+    h = Harness(case['config']['pool'], case['config'].get('logger_level'))
     hbfs.replay_case(h, case)
